@@ -280,6 +280,7 @@ inductive EdCmd where
   | a (text : CStr)          -- `a`, one line of text, `.`
   | e (arg : CStr) | E (arg : CStr) | f (arg : CStr) | r (arg : CStr)
   | w (arg : CStr) | W (arg : CStr) | x | q | Q
+  | D (name : CStr)          -- the user goes net-dead: save_ed_buffer, the master answers `name`
   deriving Repr, DecidableEq
 
 structure EdSt where
@@ -383,6 +384,11 @@ def edStep (pol : Policy) (ex : List CStr) (st : EdSt) (c : EdCmd) : List Ev × 
      match r with
      | none => st
      | some p => if edWritable st ex p then { st with active := false, files := (p, st.nlines) :: st.files } else st)
+  | .D name =>
+    -- save_ed_buffer: get_save_file_name (P_FNAME) → one leading slash removed; written only when that is a
+    -- legal path (repaired code; before, "/../x" or "//tmp/x" were written); the session is over either way
+    let p := stripOneSlash name
+    (.edsave st.fname name :: (if legalPath p then [.fs "fopen" true p] else []), { st with active := false })
   | .q => ([], if st.changed then st else { st with active := false })
   | .Q => ([], { st with active := false })
 
@@ -392,6 +398,7 @@ def EdCmd.callArgs : EdCmd → List CStr
   | .e y => [str "e", y] | .E y => [str "E", y] | .f y => [str "f", y] | .r y => [str "r", y]
   | .w y => [str "w", y] | .W y => [str "W", y]
   | .x => [str "x", []] | .q => [str "q", []] | .Q => [str "Q", []]
+  | .D y => [str "D", y]
 
 /-- is the command executed?  `ed ()` on an active session is an error before anything happens; editor
     commands need a session -/
